@@ -55,6 +55,8 @@ Section TyInd.
   Hypothesis Hwrap : forall t, P t -> P (TWrap t).
   Hypothesis Hunion : forall ts, Forall P ts -> P (TUnion ts).
   Hypothesis Hnone : P TNone.
+  Hypothesis Hlit : P TLit.
+  Hypothesis Habsent : forall d, P (TAbsent d).
 
   Fixpoint ty_ind' (t: ty) : P t :=
     let go := fix go (ts: list ty) : Forall P ts :=
@@ -75,6 +77,8 @@ Section TyInd.
     | TWrap t' => Hwrap t' (ty_ind' t')
     | TUnion ts => Hunion ts (go ts)
     | TNone => Hnone
+    | TLit => Hlit
+    | TAbsent d => Habsent d
     end.
 End TyInd.
 
@@ -135,7 +139,7 @@ Proof. unfold as_items. induction ys; simpl; [reflexivity | now rewrite IHys]. Q
 (* the generator's identity test does not depend on the holder's dialect support *)
 Lemma is_id_cp_hsup E N h1 h2 t : is_id (cp E N h1 t) = is_id (cp E N h2 t).
 Proof.
-  revert h1 h2. induction t as [| lk | | | t IHt | o t IHt | t IHt | ts IHts | o t1 IHt1 t2 IHt2 | c0 | tw IHw | us IHus |] using ty_ind';
+  revert h1 h2. induction t as [| lk | | | t IHt | o t IHt | t IHt | ts IHts | o t1 IHt1 t2 IHt2 | c0 | tw IHw | us IHus | | | dd] using ty_ind';
     intros h1 h2; simpl; try reflexivity; try (now apply IHw).
   - unfold seq_expr. rewrite (IHt h1 h2). destruct (is_id (cp E N h2 t)); [| reflexivity].
     destruct (inN N o); [reflexivity |]. destruct (origin_eqb o OList); reflexivity.
@@ -287,14 +291,13 @@ Section PackShare.
   Lemma pack_share_all : forall v, P_pack v.
   Proof.
     induction v as [z | | z | l | k l xs IH | k l kvs IH | c l fs IH] using lv_ind';
-      intros call N hsup t; induction t as [| lk | | | t' IHt | o t' IHt | t' IHt | ts IHts | o kt IHk vt IHv | c0 | tw IHw | us IHus |] using ty_ind';
+      intros call N hsup t; induction t as [| lk | | | t' IHt | o t' IHt | t' IHt | ts IHts | o kt IHk vt IHv | c0 | tw IHw | us IHus | | | dd] using ty_ind';
       intros n Hc Hu Ho Hn; try (simpl in Hc; discriminate Hc);
       try (apply IHw; auto; fail);
       try (apply P_id; auto; fail);
       try (cbn [cp]; rewrite rp_opt; apply IHt; auto; fail);
-      try (apply union_pack_case; auto; fail).
-    (* VNone : Optional *)
-    - simpl. split; [reflexivity | lia].
+      try (apply union_pack_case; auto; fail);
+      try (simpl; split; [reflexivity | lia]; fail).
     (* VLeaf *)
     - simpl. destruct (e_lp E lk); destruct lk; simpl; (split; [reflexivity | lia]).
     (* VSeq *)
@@ -504,13 +507,14 @@ Section UnpackShare.
   Lemma unpack_share_all : forall w, P_unpack w.
   Proof.
     induction w as [z | | z | l | k l xs IH | k l kvs IH | c l fs IH] using lv_ind';
-      intros t; induction t as [| lk | | | t' IHt | o t' IHt | t' IHt | ts IHts | o kt IHk vt IHv | c0 | tw IHw | us IHus |] using ty_ind';
+      intros t; induction t as [| lk | | | t' IHt | o t' IHt | t' IHt | ts IHts | o kt IHk vt IHv | c0 | tw IHw | us IHus | | | dd] using ty_ind';
       intros n Hc Ho Hn; try (simpl in Hc; discriminate Hc);
       try (apply U_id; auto; fail);
       try (cbn [cu]; rewrite ru_opt; apply IHt; auto; fail);
       try (apply union_case; auto; fail);
       try (apply IHw; auto; fail);
-      try (simpl; split; [reflexivity | lia]; fail).
+      try (simpl; split; [reflexivity | lia]; fail);
+      try (destruct dd as [| kk]; [| destruct kk]; simpl; rewrite ?(fresh_not_old n0 n Hn); (split; [reflexivity | lia]); fail).
     - (* TSeq *)
       assert (Hxs: Forall (fun x => forall m, n0 <= m ->
                  let (y, m') := run_unpack E x (cu t') m in maxold n0 y = anyref E x t' /\ m <= m') xs).
@@ -652,7 +656,7 @@ Qed.
 Fixpoint unionfree (t: ty) : bool :=
   match t with
   | TUnion _ => false
-  | TAtom | TLeaf _ | TAny | TPass | TDC _ | TNone => true
+  | TAtom | TLeaf _ | TAny | TPass | TDC _ | TNone | TLit | TAbsent _ => true
   | TOpt t' | TSeq _ t' | TTupV t' | TWrap t' => unionfree t'
   | TTup ts => forallb unionfree ts
   | TMap _ kt vt => unionfree kt && unionfree vt
@@ -676,7 +680,7 @@ Section UnionFree.
     unionfree t = true -> conforms E v t = true -> udet E v call N hsup t = true.
   Proof.
     induction v as [z | | z | l | k l xs IH | k l kvs IH | c l fs IH] using lv_ind';
-      intros call N hsup t; induction t as [| lk | | | t' IHt | o t' IHt | t' IHt | ts IHts | o kt IHk vt IHv | c0 | tw IHw | us IHus |] using ty_ind';
+      intros call N hsup t; induction t as [| lk | | | t' IHt | o t' IHt | t' IHt | ts IHts | o kt IHk vt IHv | c0 | tw IHw | us IHus | | | dd] using ty_ind';
       intros Hf Hc; try (apply IHw; auto; fail); try (apply IHt; auto; fail);
       simpl in Hf; try discriminate Hf; simpl in Hc; try discriminate Hc; try reflexivity.
     - simpl. apply andb_prop in Hc. destruct Hc as [_ Hc]. apply forallb_forall. intros x Hx. rewrite Forall_forall in IH.
